@@ -11,7 +11,7 @@ from fractions import Fraction as F
 
 import numpy as np
 
-from .. import ampl, observe, trace
+from .. import ampl, observe, topo, trace
 from .. import ampl_universe as U
 from ..core import Machinery
 
@@ -51,15 +51,36 @@ def range_records():
     return recs
 
 
+def _massless_roles(spec):
+    """Which roles massless final-state particles with spin play: 'hel' / 'opp' (opposite-helicity state)."""
+    t = spec["transitions"][0]["topology"]
+    tree = [tuple(x) for x in topo.tree_of(t)]
+    roles = set()
+    for name, d in spec["particles"].items():
+        if name.startswith("f") and d["mass"] == 0.0 and d["spin2"] > 0:
+            i = int(name[1:])
+            parent = min((S for S in tree if i in S and len(S) > 1), key=len)
+            kids = sorted(c for c in tree if set(c) < set(parent) and not any(set(c) < set(o) < set(parent) for o in tree))
+            roles.add("hel" if kids[0] == (i,) else "opp")
+    return roles
+
+
 def single_topology_specs(rng, n):
-    out = []
+    """Random single-topology reactions; the selection always contains massless particles with spin both as
+    helicity state and as opposite-helicity state of their production node."""
+    out, need = [], {"hel": 2, "opp": 2}
     tries = 0
-    while len(out) < n and tries < n * 20:
+    while tries < n * 60 and (len(out) < n or any(v > 0 for v in need.values())):
         tries += 1
-        spec = U.synth_spec(rng, nfs=rng.choice([3, 3, 3, 2, 4]), formalism="helicity", helset="full", maxspin2=4)
+        spec = U.synth_spec(rng, nfs=rng.choice([3, 3, 3, 2, 4]), formalism="helicity", helset="full", maxspin2=4, ntop=1)
         if spec is None or len(spec["transitions"]) > 48:
             continue
-        out.append(spec)
+        roles = _massless_roles(spec)
+        wanted = [r for r in roles if need.get(r, 0) > 0]
+        if len(out) < n - sum(need.values()) or wanted:
+            out.append(spec)
+            for r in wanted:
+                need[r] -= 1
     return out
 
 
@@ -83,18 +104,20 @@ def run(chk, replay=None):
             meta.append((f"synth:{k}:{nfs}", spec, al))
     # numeric: aligned vs unaligned on events, real single-topology reactions (+ synthetic with massless half-integer spin)
     numeric_reactions = [("real", "jpsi_ksp_sigma", "helicity")] + ([("real", "jpsi_3pi_rho0", "helicity"), ("real", "jpsi_ksp_sigma", "canonical-helicity")] if tier == "thorough" else [])
-    small = [s for s in specs if s["meta"]["nfs"] == 3 and len(s["transitions"]) <= 12][: (3 if tier == "thorough" else 1)]
+    small = [s for s in specs if s["meta"]["nfs"] == 3 and len(s["transitions"]) <= 8][: (3 if tier == "thorough" else 1)]
     numeric_specs = [tuple(x) for x in numeric_reactions] + [("synth", s) for s in small]
     nj = []
     for spec in numeric_specs:
         reaction = observe.load(spec)
         ev = observe.events_for(reaction, 24, nrng)
         als = ["none", "axis", "dpd1"] + (["dpd2", "dpd3"] if tier == "thorough" else [["dpd2"], ["dpd3"]][chk.seed % 2])
+        if spec[0] == "synth" and tier == "quick":
+            als = [a for a in als if a != "axis"]  # the axis-angle model of a synthetic reaction does not fit the quick budget
         for al in als:
             jobs.append((spec, al, ev, [], chk.seed, al != "none"))
             nj.append((spec, al))
             meta.append((str(spec[:3]) if spec[0] == "real" else "synth-numeric", spec, al))
-    results = observe.run_jobs(jobs, workers=12, job_timeout=600 if tier == "thorough" else 80)
+    results = observe.run_jobs(jobs, workers=12, job_timeout=600 if tier == "thorough" else 50)
     timeouts = []
     by_numeric = {}
     for (label, spec, al), job, res in zip(meta, jobs, results):
